@@ -248,11 +248,24 @@ func TlogParseTree(text []byte) (tlog.Tree, error) {
 	return tlog.Tree{N: int64(TextSize(text)), Hash: tlog.Hash(Hash32(TextHash(text)))}, nil
 }
 
-// arbReader answers ReadHashes with an error or with one arbitrary hash per index.
-type arbReader struct{}
+// arbReader answers ReadHashes with an error or with one arbitrary hash per index. Like the real
+// tlog tile hash reader it first plans the reads needed to recompute the hash of the whole tree
+// (real tlog index arithmetic, reached through the exported tlog.TreeHash): for hostile tree
+// sizes that planning is where the reference implementation overflows.
+type arbReader struct{ N int64 }
 
-func (arbReader) ReadHashes(indexes []int64) ([]tlog.Hash, error) {
+type planReader struct{}
+
+func (planReader) ReadHashes(indexes []int64) ([]tlog.Hash, error) {
+	out := make([]tlog.Hash, len(indexes))
+	return out, nil
+}
+
+func (r arbReader) ReadHashes(indexes []int64) ([]tlog.Hash, error) {
 	Log(Ev{K: "tlog.ReadHashes", U: []uint64{uint64(len(indexes))}})
+	if r.N > 0 {
+		_, _ = tlog.TreeHash(r.N, planReader{}) // the authentication plan of tileHashReader.ReadHashes
+	}
 	if Bool("readhashes.fails") {
 		return nil, errTlog
 	}
@@ -264,7 +277,9 @@ func (arbReader) ReadHashes(indexes []int64) ([]tlog.Hash, error) {
 }
 
 // TileHashReader's tile decoding and re-hashing is outside the encodable set: its contract is
-// "one hash per requested index, or an error".
+// "one hash per requested index, or an error" after the index planning above.
 //
 //wsym:replace golang.org/x/mod/sumdb/tlog.TileHashReader
-func TlogTileHashReader(tree tlog.Tree, tr tlog.TileReader) tlog.HashReader { return arbReader{} }
+func TlogTileHashReader(tree tlog.Tree, tr tlog.TileReader) tlog.HashReader {
+	return arbReader{N: tree.N}
+}
